@@ -24,6 +24,8 @@ structure Meta where
   state : Nat := 0            -- bit 1 = normal (isOk), bit 2 = modified
   kid   : Nat := 0            -- identity of the *ds.Key object
   oid   : Nat := 0            -- identity of the value object
+  stored : Option Int := none -- deadline under which the value currently sits in the backend (entries are
+                              -- addressed by (deadline, name)); none = nothing stored
 deriving Repr, Inhabited
 
 /-- one backend entry -/
@@ -54,6 +56,7 @@ structure MState where
   signalled : List Bytes := []        -- keys passed to signalModifiedKey during the current call
   held    : List (Bytes × Bool) := []  -- records locked by the running call: (name, write lock?)
   hung    : Bool := false              -- the running call locked a record it already holds: it never returns
+  flushed : Bool := false              -- Clear() ran during the current call: every watched key counts as changed
 deriving Repr, Inhabited
 
 namespace Meta
@@ -75,13 +78,11 @@ def fresh (s : MState) : Nat × MState := (s.nextId, { s with nextId := s.nextId
 def diskGet (s : MState) (name : Bytes) (exp : Int) : Option DiskEntry :=
   AList.get? s.disk (Codec.encodeKey name exp)
 
-/-- after a step, restore pointer sharing of the in-memory backend -/
+/-- after a step, restore value sharing of the in-memory backend (it stores the value *pointer*;
+    keys are stored as copies) -/
 def syncShared (s : MState) : MState :=
   if s.pebble then s else
   { s with disk := s.disk.map fun (k, e) =>
-      let e := match s.index.find? (fun (_, m) => m.kid = e.kid ∧ e.kid ≠ 0) with
-        | some (_, m) => { e with exp := m.exp }
-        | none => e
       let e := match s.index.find? (fun (_, m) => m.oid = e.oid ∧ e.oid ≠ 0 ∧ m.value.isSome) with
         | some (_, m) => { e with val := m.value.getD e.val }
         | none => e
@@ -96,6 +97,24 @@ def diskSet (s : MState) (name : Bytes) (m : Meta) : MState × Bool :=
     let ent : DiskEntry := { name := name, exp := m.exp, val := v,
                              kid := if s.pebble then 0 else m.kid, oid := if s.pebble then 0 else m.oid }
     ({ s with disk := AList.set s.disk (Codec.encodeKey name m.exp) ent }, true)
+
+def diskDelete (s : MState) (name : Bytes) (exp : Int) : MState :=
+  { s with disk := AList.erase s.disk (Codec.encodeKey name exp) }
+
+/-- `metadata.persist`: drop the entry written under an earlier deadline, write under the current
+    one, remember where. Returns the updated record and whether the write succeeded. -/
+def persist (s : MState) (name : Bytes) (m : Meta) : MState × Meta × Bool :=
+  let (s, m) := match m.stored with
+    | some e => if e ≠ m.exp then (diskDelete s name e, { m with stored := none }) else (s, m)
+    | none => (s, m)
+  let (s, ok) := diskSet s name m
+  (s, if ok then { m with stored := some m.exp } else m, ok)
+
+/-- `metadata.unpersist` -/
+def unpersist (s : MState) (name : Bytes) (m : Meta) : MState :=
+  match m.stored with
+  | some e => diskDelete s name e
+  | none => s
 
 /-- what `storage.Get` hands back: the shared object (memory) or a decoded copy (Pebble).
     `none` = ErrKeyNotFound / undecodable -/
@@ -112,8 +131,12 @@ def modMeta (s : MState) (key : Bytes) (f : Meta → Meta) : MState :=
   match getMeta s key with
   | some m => putMeta s key (f m)
   | none => s
-/-- `tx.delKey`: unlink the record; a lock held on it stays with the orphaned record -/
+/-- `tx.delKey`: unlink the record and remove its backend entry; a lock held on it stays with the
+    orphaned record -/
 def delKey (s : MState) (key : Bytes) : MState :=
+  let s := match AList.get? s.index key with
+    | some m => unpersist s key m
+    | none => s
   { s with index := AList.erase s.index key, held := s.held.filter (·.1 ≠ key) }
 
 /-- `lockKey` on an indexed record: a record this call already write-locked is reused; asking for
@@ -133,6 +156,10 @@ def newKeyWith (s : MState) (key : Bytes) (old : Option Meta) (v : Val) : MState
   let base : Meta := match old with
     | some m => m
     | none => { exp := 0, value := none }
+  -- publishing a brand-new record over a dead one: the dead record's backend entry goes with it
+  let s := match old, getMeta s key with
+    | none, some dead => unpersist s key dead
+    | _, _ => s
   let m := ({ base with exp := 0, kid := kid, oid := oid }.setValue v).markModified
   putMeta s key m
 
@@ -196,9 +223,13 @@ def gc (s : MState) (now : Int) : MState :=
   if s.closed then s else
   let step (s : MState) (ent : Bytes × Meta) : MState :=
     let (key, m) := ent
-    if m.expired now || !m.isOk then delKey s key
+    if m.expired now || !m.isOk then
+      -- unlinked (after the scan) together with its backend entry
+      let s := unpersist s key m
+      { s with index := AList.erase s.index key }
     else
-      let s := if m.isModified then (diskSet s key m).1 else s
+      let (s, m, ok) := if m.isModified then persist s key m else (s, m, true)
+      if !ok then putMeta s key m else      -- write failed: stays in memory, stays modified
       -- reset(): state = normal, count--
       let m' := { m with state := 1, count := m.count - 1 }
       let m' := if m'.count < 0 then { m' with value := none } else m'
@@ -209,22 +240,31 @@ def gc (s : MState) (now : Int) : MState :=
 def flush (s : MState) (now : Int) : MState :=
   let step (s : MState) (ent : Bytes × Meta) : MState :=
     let (key, m) := ent
-    if !m.isModified || m.expired now || !m.isOk then s
-    else (diskSet s key m).1
+    if m.expired now || !m.isOk then
+      -- a dead key's backend entry is removed (the record stays indexed until a gc pass)
+      putMeta (unpersist s key m) key { m with stored := none }
+    else if !m.isModified then s
+    else
+      let (s, m, _) := persist s key m
+      putMeta s key m
   syncShared (s.index.foldl step s)
 
 /-- `store.close()` -/
 def close (s : MState) (now : Int) : MState := { flush { s with closed := true } now with closed := true }
 
-/-- `newStore(ss)` on the backend left behind: one cold record per stored key; for a name stored
-    under several encodings the last one in byte order of the encoding wins -/
+/-- `newStore(ss)` on the backend left behind: one cold record per stored name; of several entries
+    for one name the last in byte order of the encoding wins and the others are deleted -/
 def reopen (s : MState) : MState :=
-  let idx := s.disk.foldl (fun (idx : AList Meta) (_, e) =>
-      AList.set idx e.name { exp := e.exp, value := none, state := 1, kid := e.kid, oid := e.oid }) []
+  let (idx, shadowed) := s.disk.foldl (fun (acc : AList Meta × List (Bytes × Int)) (_, e) =>
+      let sh := match AList.get? acc.1 e.name with
+        | some old => (match old.stored with | some oe => (e.name, oe) :: acc.2 | none => acc.2)
+        | none => acc.2
+      (AList.set acc.1 e.name { exp := e.exp, value := none, state := 1, kid := e.kid, oid := e.oid, stored := some e.exp }, sh)) ([], [])
+  let s := shadowed.foldl (fun s (n, e) => diskDelete s n e) s
   { s with index := idx, closed := false, feed := [], signalled := [] }
 
 /-- `store.clear()` -/
-def clear (s : MState) : MState := { s with index := [], disk := [] }
+def clear (s : MState) : MState := { s with index := [], disk := [], flushed := true }
 
 end Store
 end NodisVerif
